@@ -6,7 +6,7 @@ git -C /repo worktree add -q --detach $WT ${BASE:-HEAD} || exit 2
 cd "$(dirname "$0")/.."
 props=$(python3 -c "import json;print(' '.join(c['property_id'] for c in json.load(open('MANIFEST.json'))['checks']))")
 for d in "$@"; do
-  for f in $d/[RPQSTUO][0-9]*.diff; do
+  for f in $d/[RPQSTUVO][0-9]*.diff; do
     [ -f "$f" ] || continue
     git -C $WT reset -q --hard; git -C $WT clean -qfd
     if ! git -C $WT apply "$f" 2>/dev/null; then
